@@ -19,7 +19,7 @@ import ast
 from ..model import AnchorMissing, CannotAnalyse, walk_no_nested
 from ..cfg import CFG, fmt_path
 from ..poly import Rat, C, mk_atom, lem_exp, lem_log, subst, REG
-from ..vg import Evaluator, vkey, atoms_of, Const
+from ..vg import loopvar, Evaluator, vkey, atoms_of, Const
 from ..dataflow import names_in
 from .common import calls_to, site, key, kwarg, stmt_of, enclosing, attr_stores, module_list_literal
 
@@ -98,7 +98,7 @@ def r1_verdicts(ctx):
             continue
         n_fixed += 1
         thr = vkey(b)
-        ok_thr = "'OSNR'" in thr and 'sys_margins' in thr and "'SI'" in thr and "'default'" in thr and \
+        ok_thr = 'OSNR' in thr and 'sys_margins' in thr and "'SI'" in thr and "'default'" in thr and \
             len(b.n.t) == 2 and all(c == 1 for c in b.n.t.values())
         ctx.check('R1.verdict', f'{st} threshold', ok_thr and op == 'lt', key(f, f'threshold|{recv[:60]}'),
                   'fixed-mode verdict does not block exactly when metric < required OSNR + system margin',
@@ -143,7 +143,7 @@ def r1_verdicts(ctx):
             continue
         n_auto += 1
         thr = vkey(a)
-        ok_thr = "'OSNR'" in thr and 'sys_margins' in thr and 'this_mode' in thr or ("'OSNR'" in thr and 'sys_margins' in thr and 'loopvar' in thr)
+        ok_thr = 'OSNR' in thr and 'sys_margins' in thr and ('this_mode' in thr or 'loopvar' in thr)
         ctx.check('R1.verdict', f'{st} threshold', bool(ok_thr) and op == 'lt' and len(a.n.t) == 2, key(g, 'auto-threshold'),
                   "automatic-mode verdict does not accept exactly when metric > mode['OSNR'] + system margin",
                   f'{thr[:160]} {op} metric')
@@ -212,13 +212,13 @@ def r2_update_snr(ctx):
             post = lb['post'].get(nm)
             if isinstance(pre, Rat) and pre.is_zero() and isinstance(post, Rat):
                 lid = sorted(ev.loop_bodies)[0]
-                cur = Rat.of(mk_atom('fn', f'loopvar#{lid}', (nm,)))
+                cur = loopvar(lid, nm)
                 from ..poly import gamma_conds, restrict
                 conds = [c for c in gamma_conds(post) if c.startswith('isnone(')]
                 det = post.key()
                 if len(conds) == 1:
                     s_ = lb['node'].target.id if isinstance(lb['node'].target, ast.Name) else '?'
-                    sv = Rat.of(mk_atom('fn', f'loopvar#{lid}', (s_,)))
+                    sv = loopvar(lid, s_)
                     want = lem_exp(-sv / C(10), 'exp10')
                     ok = (restrict(post, {conds[0]: True}) - cur).is_zero() and \
                         (restrict(post, {conds[0]: False}) - cur).eq(want) and conds[0] == f'isnone({sv.key()})'
